@@ -20,7 +20,7 @@ from ..oracles import sigmodel as sm
 PID = "C06"
 LEVEL = "exploration"
 RULE = ("full product of operation sequences (depth<=2 quick / 3 thorough, 4 for the plain FunctionSignal) over the "
-        "24-operation signal alphabet x all read masks, on 9 kinds of function-backed signals (plain 1- and 2-component, a memoising function, a grid-dependent function, "
+        "25-operation signal alphabet x all read masks, on 9 kinds of function-backed signals (plain 1- and 2-component, a memoising function, a grid-dependent function, "
         "ZHS/AVZ/ARZ Askaryan, FFT/Full thermal noise under OwnedRandom); and of attribute-assignment sequences "
         "(depth<=2/3) x read masks on Specialized/Basic/Uniform/Layered tracers and their paths; distinct_nontrivial = "
         "distinct (kind, op sequence, mask) with at least one read before a mutation")
@@ -72,8 +72,12 @@ SIG_OPS = ["shift+3", "shift-5", "imul2", "idiv4", "filt_delay2", "filt_lowpass"
            # a second component that carries its own, different filter (same padded length as the first)
            "add_late_lowpass",
            # a filter without force_real next to filters with it; a leading buffer that is not a whole number of samples
-           "filt_delay2_noforce", "buf_lead_frac"]
-SIG_KINDS = ["plain_early", "plain_two", "plain_memo", "plain_gridaware", "zhs", "avz", "arz", "fftnoise", "fullnoise"]
+           "filt_delay2_noforce", "buf_lead_frac", "buf_lead10"]
+SIG_KINDS = ["plain_early", "plain_two", "plain_memo", "plain_gridaware", "plain_decimal", "zhs", "avz", "arz", "fftnoise", "fullnoise"]
+# a grid with a decimal step (0.1): buffer / dt is then subject to rounding (1.0 / 0.1 == 10.0 exactly but 1.0 % 0.1 != 0)
+DEC_DT = 0.1
+DEC_GRID = [float(x) for x in np.linspace(0.0, 10.0, 101)]
+FUNCS["dec_tri"] = lambda t: np.where(np.abs(np.asarray(t, dtype=float) - 0.3) < 2.05, 1.0 - np.abs(np.asarray(t, dtype=float) - 0.3) / 2.05, 0.0)
 
 
 # ------------------------------------------------------------------------------------------------
@@ -106,6 +110,9 @@ def _make_signal(kind):
     if kind == "plain_gridaware":
         return (FunctionSignal(t, FUNCS["gridaware"], Signal.Type.voltage),
                 sm.M("Function", GRID, sm.VOLT, comps=[["gridaware", 0.0, 0.0, 0.0, 1.0, []]]))
+    if kind == "plain_decimal":
+        return (FunctionSignal(np.array(DEC_GRID), FUNCS["dec_tri"], Signal.Type.voltage),
+                sm.M("Function", DEC_GRID, sm.VOLT, comps=[["dec_tri", 0.0, 0.0, 0.0, 1.0, []]]))
     if kind in ("zhs", "avz", "arz"):
         cls = {"zhs": askaryan.ZHSAskaryanSignal, "avz": askaryan.AVZAskaryanSignal,
                "arz": askaryan.ARZAskaryanSignal}[kind]
@@ -159,6 +166,11 @@ def _apply_sig(obj, mod, op):
         if mod:
             for c in mod.comps:
                 c[2] = max(c[2], 4.5 * dt)
+    elif op == "buf_lead10":
+        obj.set_buffers(leading=10 * dt)
+        if mod:
+            for c in mod.comps:
+                c[2] = max(c[2], 10 * dt)
     elif op == "buf_lead4":
         obj.set_buffers(leading=4 * dt)
         if mod:
@@ -307,9 +319,13 @@ def _signal_case(case):
         for seq in itertools.product(SIG_OPS, repeat=d):
             if first is not None and seq[0] != first:
                 continue
+            if kind == "plain_decimal" and any(("add_" in o) or ("child_sum" in o) or o.startswith("resample") for o in seq):
+                continue        # (the added components / resampling are defined for the dyadic grids)
             seqs.append(seq)
     if case.get("seq"):
         seqs = [tuple(case["seq"])]
+    if not seqs:
+        return {"n": 0, "nontrivial": [], "fails": [], "sample": {"kind": kind, "sequence": [], "masks": "-"}}
     # baseline (no reads) of every prefix is needed: cache
     base_cache = {}
 
@@ -329,6 +345,10 @@ def _signal_case(case):
         n += 1
         if b[0] == "exc":
             # a sequence the fresh object itself refuses: only consistency of refusal is checked below
+            pass
+        elif b[2] is not None and kind == "plain_decimal" and any(c[5] for c in b[2].comps):
+            # decimal grid with filters: how many buffer samples a non-dyadic step yields is a matter of rounding, so only the
+            # differential oracle applies
             pass
         elif b[2] is not None:
             # eager model on the no-read execution
